@@ -265,6 +265,23 @@ func checkC05(c *Ctx, r *Report) {
 			}
 		}
 		r.Count("less_cells", n)
+		// the order is total: Less compares the stored fields themselves; a
+		// key computed from them (lower-cased, trimmed) makes distinct
+		// destinations compare equal, and sort.Sort then leaves their order
+		// to the map iteration that produced the list
+		var callIn ssa.Instruction
+		forEachInstr(less, func(in ssa.Instruction) {
+			if call, ok := in.(*ssa.Call); ok && callIn == nil {
+				if _, isB := call.Call.Value.(*ssa.Builtin); !isB {
+					callIn = in
+				}
+			}
+		})
+		if callIn != nil {
+			r.Fail("D6-plain", "Less compares the stored fields themselves", c.instrPos(callIn), "a function is applied to the compared values: entries that differ only in what the function discards become ties, and the unstable sort orders ties by hash-map iteration")
+		} else {
+			r.Pass("D6-plain", "Less compares the stored fields themselves", c.pos(less.Pos()), "no call inside Less")
+		}
 	}
 
 	// ---- K2 / K1 / O5 ----
